@@ -90,6 +90,10 @@ def handle (line : String) : String :=
         | "sync" => let w := World.start .sync vs; s!"html={enc (renderList w.st .final w.tree)}"
         | "block" => runBlock (World.start .block vs) evs
         | "stream" => runStream (World.start .stream vs) evs
+        -- the same renders with complete renders of OTHER modes (of an unrelated view) carried out on the
+        -- thread between the events: a render does not see other renders, so the model ignores them
+        | "blockx" => runBlock (World.start .block vs) evs
+        | "streamx" => runStream (World.start .stream vs) evs
         -- a render after a cancelled one is a fresh render: every task (in order of first occurrence in
         -- the view), then every resource, completes
         | "blockdrop" => runBlock (World.start .block vs) (allEvents vs)
